@@ -3,6 +3,7 @@ package main
 import (
 	"fmt"
 	"math/rand"
+	"os"
 	"strconv"
 	"strings"
 	"sync"
@@ -140,7 +141,7 @@ func runC03(c *Check, rng *rand.Rand) {
 			c03env(c, rand.New(rand.NewSource(seed)), timeout, scen, mode)
 		}()
 	}
-	run(0, []string{"P", "D", "K", "O", "P"}, c.Seed*10+1, "")
+	run(0, []string{"P", "O", "D", "K", "O", "P"}, c.Seed*10+1, "")
 	run(300, []string{"T", "P", "T"}, c.Seed*10+2, "")
 	if c.Thorough() {
 		run(0, []string{"P", "D", "K", "P"}, c.Seed*10+3, "race")
@@ -187,6 +188,9 @@ func c03env(c *Check, rng *rand.Rand, timeout int, scen []string, mode string) {
 			return
 		}
 		sc := scen[ep%len(scen)]
+		if f := os.Getenv("C03_SCEN"); f != "" {
+			sc = f
+		}
 		nclients := 3 + rng.Intn(c.Pick(5, 13))
 		clients := make([]*c03client, nclients)
 		for i := range clients {
@@ -238,7 +242,12 @@ func c03env(c *Check, rng *rand.Rand, timeout int, scen []string, mode string) {
 			// an error while its sibling fragment is still outstanding (gated)
 			for round := 0; round < 3; round++ {
 				a := clients[0]
-				keys := a.mget(goodSlot(), goodSlot())
+				s1 := goodSlot()
+				s2 := goodSlot()
+				for env.T.Owner(s2) == env.T.Owner(s1) {
+					s2 = goodSlot()
+				}
+				keys := a.mget(s1, s2)
 				track(keys...)
 				big := BulkReply(make([]byte, 70000))
 				script.Plan(keys[0]).Act = func(*BReq) Action { return Action{Reply: ArrayReply(big)} }
